@@ -7,24 +7,35 @@ gauge choices of compress_between and the arbitrary-geometry compression methods
 on lattices / graphs whose tensor entries are symbols.
 
 (a) EXACTNESS: with a bond cap >= the exact bond size and cutoff = 0.0 the returned value
-    (mantissa * 10**exponent where an exponent is stripped) equals the exact contraction value
-    computed by an independent reference (explicit sum of products, qv/ref.py; a plain
-    numpy.tensordot chain cross-checked against it) for ALL values of the entries.  Wherever a
-    scheme canonises / compresses, LAPACK (qr / svd / eigh) is a contract stub and the goal is
-    certified modulo the contracts (Q-CERT); where nothing is factorised it is a polynomial
-    identity (Q-ID).
-(b) BOND CAP: with a cap chi BELOW the exact bond size and cutoff = 0.0 every bond of the
-    boundary that a scheme returns or hands over (final_contract=False, inplace, around=...,
-    every stored environment, every intermediate of a step-by-step sweep, every
-    callback of a compressed contraction) is <= chi.  Truncation only slices the factors
-    returned by the stubs, so these goals are structural (shapes) and hold on every path of the
-    symbolic run as well as in the numeric cross-run.
+    (mantissa * 10**exponent where an exponent is stripped, times 10**(stored exponent) where the
+    network arrives with one) equals the exact contraction value computed by an independent
+    reference (a plain numpy.tensordot chain, cross-checked against the explicit sum of products
+    of qv/ref.py) for ALL values of the entries.  Wherever a scheme canonises / compresses, LAPACK
+    (qr / svd / eigh / cholesky) is a contract stub and the goal is certified modulo the contracts
+    (Q-CERT); where nothing is factorised it is a polynomial identity (Q-ID).
+(b) BOND CAP: with a cap chi BELOW the exact bond size and cutoff = 0.0 no two tensors of the
+    network a scheme returns or hands over share more than chi: after EVERY step of a
+    step-by-step sweep (contract_boundary_from_), for final_contract=False / inplace / around=...,
+    for the coarse lattices of HOTRG, for every compression and every intermediate of a
+    compressed contraction (callbacks), for compress_between and the arbitrary-geometry
+    compressors; together with the documented amount of work (lines left by the schedule, one
+    tensor per site, coarse lattice sizes).  Truncation with cutoff 0 only slices the factors
+    returned by the stubs, so these goals are structural; their symbolic runs use stubs WITHOUT
+    contracts (fewer assumptions) and show that no value dependent branch decides a shape.
 (c) ENVIRONMENTS: every stored row / column / plaquette environment, combined with the part of
-    the lattice it excludes, contracts to the value of the whole network (no truncation).
+    the lattice it excludes, has no dangling label and contracts to the value of the whole network
+    (flat and two-layer networks, with the documented exponent rule under equalize_norms).
 
-Symbolic instances keep bond dimension 2 on the bonds named by a `pattern` (1 elsewhere) where
-the certificates would otherwise be out of reach; the numeric cross-run of the same harness
-always uses bond dimension 2 everywhere (complex entries where the symbolic run must be real).
+Reach of the symbolic engine (everything else is decided in the numeric cross-run of the same
+harness, bond 2 everywhere, complex data, real LAPACK, and is labelled `numeric-only`):
+  * QR / SVD based cores (mps, direct, zipup, dm, fit, full-bond, 3D peps): certified with every bond 2
+    for one boundary step, with one lattice direction entangled ("rows" / "cols") for several steps;
+  * projector schemes (projector2d, CTMRG, HOTRG, 3D CTMRG): certified on product-cut instances (bond 1
+    across the compressed cuts, 2 along the sweep); the building blocks (oblique projectors, reduced
+    factors, similarity compression) are certified on full symbolic operands (projector_lemmas);
+  * contract_compressed: every connected path of 4-tensor rings (rank-1 compressions), every path of
+    all graphs where the cap exceeds every product bond (nothing to compress: Q-ID);
+  * schemes that iterate to a numerical tolerance: numeric-only.
 """
 import functools
 import itertools
@@ -159,25 +170,10 @@ def value(res):
     return res
 
 
-def dims_ok(tn, chi):
-    """largest bond (label shared by two tensors) of a network <= chi"""
-    return all(tn.ind_size(ix) <= chi for ix in tn.inner_inds())
 
 
-def max_inner(tn):
-    return max([tn.ind_size(ix) for ix in tn.inner_inds()] or [1])
 
 
-def pair_bonds_ok(tn, chi):
-    """product of the labels shared by any two tensors <= chi (a multi-bond counts as one bond)"""
-    for ta, tb in itertools.combinations(tn.tensor_map.values(), 2):
-        sz = 1
-        for ix in ta.inds:
-            if ix in tb.inds:
-                sz *= ta.ind_size(ix)
-        if sz > chi:
-            return False
-    return True
 
 
 def certified(fn):
@@ -626,6 +622,8 @@ def boundary_cap_steps(mk, side, opt, chi):
     steps = range(depth - 1) if side.endswith("min") else range(depth - 1, 0, -1)
     if heavy and mk.sym:
         steps = steps[:1]          # symbolic run: the first step only (the next Gram matrices are out of reach)
+    elif mode == "dm":
+        steps = steps[:-1]         # the density-matrix compressor rejects (LinAlgError) a line without outer labels: not the last step
     with shapes_only():
         for s in steps:
             main = (s, s + 1) if side.endswith("min") else (s - 1, s)
@@ -696,8 +694,10 @@ def _cap_driver_params():
                 q = quick and chi == 3 and opt in ("mps", "full-bond", "projector2d") and k in (0, 3, 4, 5)
                 if chi == 2 and opt not in ("mps", "full-bond", "projector2d"):
                     continue
-                if opt == "zipup" and extra.get("max_separation") == 0 and len(seq) == 4:
-                    continue        # the zip-up compressor raises AttributeError on a boundary line of a single site (a rejection)
+                if opt in ("zipup", "superorthogonal") and extra.get("max_separation") == 0 and len(seq) == 4:
+                    continue        # these compressors raise (AttributeError / StopIteration) on a boundary line of a single site
+                if opt == "dm" and extra.get("max_separation") == 0:
+                    continue        # the density-matrix compressor raises LinAlgError on a line without outer labels (last step)
                 out.append({"shape": shape, "seq": seq, "extra": extra, "opt": opt, "chi": chi, "_tiers": _Q if q else _T})
     return out
 
@@ -728,7 +728,6 @@ def boundary_cap_driver(mk, shape, seq, extra, opt, chi):
     with shapes_only():
         res = tn.contract_boundary(max_bond=chi, cutoff=0.0, sequence=seq, final_contract=False, **kw, **extra)
     mk.same("final_contract=False hands over a network", isinstance(res, qtn.TensorNetwork), True)
-    skipped = sum(v for k, v in start.items() if k.endswith("min")) * Ly if start else 0
     if not start:
         mk.same(f"lines left after the schedule {[s[0] for s in steps]}", res.num_tensors, nx * ny)
     cap_goal(mk, f"contract_boundary(max_bond={chi}, cutoff=0.0, sequence={seq}, {opt}, final_contract=False, {extra})", res, chi)
@@ -1214,12 +1213,33 @@ def contract_compressed_all_paths(mk, geom, chi, opt):
                 if sz > chi:
                     over.append((step[0], sz))
 
-        extra_cb = dict(callback=after_step) if early else {}
+        late = chi is not None and kw.get("compress_late") is True and not any(
+            k in kw for k in ("compress_span", "compress_matrices", "compress_min_size", "gauges"))
+        over_late = []
+
+        def before_contract(net, tids, over_late=over_late):
+            # late compression: just before two tensors are contracted all their other bonds are within the cap
+            for a, b in (tids, tids[::-1]):
+                t = net.tensor_map[a]
+                for tidn in net._get_neighbor_tids(a):
+                    if tidn == b:
+                        continue
+                    tnb = net.tensor_map[tidn]
+                    sz = 1
+                    for ix in t.inds:
+                        if ix in tnb.inds:
+                            sz *= t.ind_size(ix)
+                    if sz > chi:
+                        over_late.append(sz)
+
+        extra_cb = dict(callback=after_step) if early else (dict(callback_pre_contract=before_contract) if late else {})
         res = tn.contract_compressed(optimize=p, max_bond=chi, cutoff=0.0, output_inds=out or None, **w.kw(), **extra_cb, **kw)
         for l, b, r in w.post:
             mk.same(f"path {p}: a bond just compressed is within the cap {chi}", max(b, chi), chi)
         if early:
             mk.same(f"path {p}: after every step the new intermediate's bonds (except to its next partner) are within the cap {chi}", over, [])
+        if late:
+            mk.same(f"path {p}: compress_late: just before a contraction the other bonds of both tensors are within the cap {chi}", over_late, [])
         if not w.rank_safe(chi):
             continue                # a genuinely truncating compression happened on this path: exactness is not promised
         nexact += 1
@@ -1593,8 +1613,6 @@ def _proj_params():
         for call in _PROJ_CALLS:
             if call.startswith("hotrg") and seq[0].endswith("max"):
                 continue              # HOTRG has lattice directions ('x', 'y'), not sides
-            if call.startswith("hotrg") and shape in ((3, 3),) and False:
-                continue
             q = shape in ((4, 3), (3, 4)) and seq in (("xmin",), ("ymin",)) and call in ("projector2d", "ctmrg", "hotrg")
             out.append({"shape": shape, "seq": seq, "call": call, "two": bool(extra), "_tiers": _Q if q else _T})
     return out
@@ -1619,7 +1637,7 @@ def projector_schemes_exact(mk, shape, seq, call, two):
         return _numeric_only(mk, "several projector steps: the Gram matrices of already merged regions are out of reach")
     tn = lattice2d(mk, Lx, Ly, _cut_pattern(seq[0]), kind="real", numkind="cplx")
     want = exact(tn)
-    kw = {"max_unfinished": 0} if two else {}
+    kw = {"max_unfinished": 0} if (two and not call.startswith("ctmrg")) else {}      # contract_ctmrg has no max_unfinished
     # lazy projectors of a first sweep belong to both regions of a perpendicular cut: its exact bond is 2**3
     cap = 16 if two else (4 if max(Lx, Ly) < 5 else 8)
     with spectrum("pos"):
@@ -1687,7 +1705,7 @@ def projector_lemmas(mk, which):
 def _pcap_params():
     out = []
     for chi in (3, 2, 1):
-        for d in "xy":
+        for d in ("x", "y", "x-odd", "y-odd"):
             for opt in ("plain", "lazy", "canonize"):
                 out.append({"scheme": "coarse_grain_hotrg", "arg": d, "opt": opt, "chi": chi, "_tiers": _Q if (chi == 3 and opt == "plain") else _T})
         for seq in (("x", "y"), ("y", "x"), ("x",), ("y",)):
@@ -1708,6 +1726,11 @@ def projector_schemes_cap(mk, scheme, arg, opt, chi):
     if mk.sym and opt == "canonize":
         return _numeric_only(mk, "gauge_all_simple iterates to a tolerance")
     Lx, Ly = (4, 4) if not mk.sym else ((4, 3) if scheme != "contract_ctmrg" else (3, 3))
+    if scheme == "coarse_grain_hotrg" and arg.endswith("-odd"):
+        arg = arg[0]
+        Lx, Ly = (5, 3) if arg == "x" else (3, 5)       # an odd number of lines: the last one is kept as it is
+    elif scheme == "coarse_grain_hotrg" and mk.sym and arg == "y":
+        Lx, Ly = 3, 4
     tn = lattice2d(mk, Lx, Ly, "all", kind="real", numkind="cplx")
     lazy = opt == "lazy"
     with shapes_only():
@@ -2063,3 +2086,32 @@ def layered_environments(mk, shape, pattern, what, layers, opt):
         penvs = norm.compute_plaquette_environments(x_bsz=bx, y_bsz=by, max_bond=64, cutoff=0.0, **kw)
         plaquette_goals(mk, norm, penvs, bx, by, want,
                         f"two layers, compute_plaquette_environments({bx}, {by}, layer_tags={_LAYERS[layers]}, {opt})")
+
+
+@obligation(PROP, params=[{"scheme": sc, "axis": a, "odd": o, "chi": c, "_tiers": _Q if (c == 3 and a == "z" and sc == "hotrg") else _T}
+                          for sc in ("hotrg", "ctmrg") for a in "xyz" for o in (False, True) for c in (3, 2)],
+            wall_s=500, timeout_s=600, max_paths=64, exc_is_violation=True)
+def schemes3d_cap(mk, scheme, axis, odd, chi):
+    """3D coarse_grain_hotrg(direction) / contract_ctmrg(sequence=(side,), final_contract=False) with a truncating cap and
+    cutoff 0: the coarse lattice has the documented size (an odd line count keeps its last plane) and no two tensors of the
+    network handed over share more than max(chi, 2)"""
+    mk.encodes(c3.TensorNetwork3D.coarse_grain_hotrg, c3.TensorNetwork3D.contract_ctmrg, c3.TensorNetwork3D._contract_boundary_projector,
+               tc.TensorNetwork.insert_compressor_between_regions)
+    n = (3 if odd else 4) if scheme == "hotrg" else (3 if odd else 4)
+    shape = tuple(n if c == axis else 2 for c in "xyz")
+    tn = lattice3d(mk, *shape, pattern="all", kind="real", numkind="cplx")
+    with shapes_only():
+        if scheme == "hotrg":
+            res = tn.coarse_grain_hotrg(axis, max_bond=chi, cutoff=0.0)
+            want = tuple((n + 1) // 2 if c == axis else 2 for c in "xyz")
+            mk.same(f"3D coarse_grain_hotrg({axis!r}) on {shape}: coarse lattice size", (res.Lx, res.Ly, res.Lz), want)
+            mk.same("one tensor per coarse site", res.num_tensors, want[0] * want[1] * want[2])
+        else:
+            side = axis + ("max" if odd else "min")
+            if mk.sym:
+                shape = tuple(3 if c == axis else 2 for c in "xyz")
+                tn = lattice3d(mk, *shape, pattern="all", kind="real", numkind="cplx")
+            res = tn.contract_ctmrg(max_bond=chi, cutoff=0.0, sequence=(side,), final_contract=False)
+            # one step, then at most max_unfinished=1 axis is still further apart than max_separation: stop
+            mk.same("one plane has been absorbed", res.num_tensors, 4 * (max(shape) - 1))
+    cap_goal(mk, f"3D {scheme} along {axis} (max_bond={chi}, cutoff=0.0)", res, max(chi, 2))
